@@ -5,7 +5,7 @@ open Lean
 namespace SaoVerif
 
 deriving instance FromJson, ToJson for Order, RenewInfo, Shard, Metadata, ModelKey, ModelEntry, Node, Pledge, Pool,
-  NodeParams, Worker, Fault, FaultIdx, ValidatorV, DelegationV, StakingView, DidEntry, DidState, State, Env,
+  NodeParams, Worker, Fault, FaultIdx, ValidatorV, DelegationV, UnbondingV, StakingView, DidEntry, DidState, State, Env,
   ResetMsg, Proposal, StoreMsg, FaultIn, AccId, PayAddrMsg, BindingMsg, DidUpdateMsg
 
 def getF {α : Type} [FromJson α] (j : Json) (k : String) : Except String α :=
